@@ -228,15 +228,33 @@ func (c *ShipConnection) endHandshakeWithError(err error) {
 func (c *ShipConnection) setHandshakeTimer(timerType timeoutTimerType, duration time.Duration) {
 	c.stopHandshakeTimer()
 
-	c.setHandshakeTimerRunning(true)
-	c.setHandshakeTimerType(timerType)
+	// every armed timer gets its own stop channel, so stopping can not be missed
+	// by a timer goroutine that is not waiting yet, or be taken by an older one
+	stopChan := make(chan struct{})
+
+	c.handshakeTimerMux.Lock()
+	c.handshakeTimerStopChan = stopChan
+	c.handshakeTimerRunning = true
+	c.handshakeTimerType = timerType
+	c.handshakeTimerMux.Unlock()
 
 	go func() {
 		select {
-		case <-c.handshakeTimerStopChan:
+		case <-stopChan:
 			return
 		case <-time.After(duration):
-			c.setHandshakeTimerRunning(false)
+			// only the currently armed timer may deliver a timeout
+			c.handshakeTimerMux.Lock()
+			isCurrent := c.handshakeTimerRunning && c.handshakeTimerStopChan == stopChan
+			if isCurrent {
+				c.handshakeTimerRunning = false
+			}
+			c.handshakeTimerMux.Unlock()
+
+			if !isCurrent {
+				return
+			}
+
 			c.handleState(true, nil)
 			return
 		}
@@ -245,15 +263,15 @@ func (c *ShipConnection) setHandshakeTimer(timerType timeoutTimerType, duration 
 
 // stop the handshake timer and close the channel
 func (c *ShipConnection) stopHandshakeTimer() {
-	if !c.getHandshakeTimerRunning() {
+	c.handshakeTimerMux.Lock()
+	defer c.handshakeTimerMux.Unlock()
+
+	if !c.handshakeTimerRunning {
 		return
 	}
 
-	select {
-	case c.handshakeTimerStopChan <- struct{}{}:
-	default:
-	}
-	c.setHandshakeTimerRunning(false)
+	close(c.handshakeTimerStopChan)
+	c.handshakeTimerRunning = false
 }
 
 func (c *ShipConnection) setHandshakeTimerRunning(value bool) {
